@@ -85,6 +85,48 @@ theorem typeCheck_ok (N : Pos) (nss : List Namespace) :
       (runCheck_ok N nss c (hc c (List.mem_cons_self ..)) tc h)
 
 
+/-! ### the type check is exponential on a self-referential SubjectSet relation -/
+
+/-- `class N { related: { a: (SubjectSet<N,"a"> | … k times)[] } }` as the parser returns it. -/
+def famNss (k : Nat) : List Namespace := [⟨"N", [⟨"a", List.replicate k ⟨"N", "a"⟩, none⟩]⟩]
+
+theorem fam_find (k : Nat) : findRelationT (famNss k) "N" "a" = some ⟨"a", List.replicate k ⟨"N", "a"⟩, none⟩ := by
+  simp [findRelationT, findNsT, findRelT, famNss]
+
+theorem typesLoop_fam_steps (rec : String → String → TC → TC) (c : Nat) (hrec : ∀ t, t.steps + c ≤ (rec "N" "a" t).steps)
+    (nss : List Namespace) (item : Item) (relation : String) :
+    ∀ (k : Nat) (tc : TC), tc.steps + k * (1 + c) ≤ (typesLoop rec nss item relation (List.replicate k ⟨"N", "a"⟩) tc).steps
+  | 0, tc => by simp [typesLoop]
+  | k+1, tc => by
+    rw [List.replicate_succ]
+    unfold typesLoop
+    simp only []
+    have h1 : ((⟨"N", "a"⟩ : RelType).rel == "") = false := by decide
+    simp only [h1, Bool.false_eq_true, if_false]
+    have ih := typesLoop_fam_steps rec c hrec nss item relation k (rec "N" "a" tc.tick)
+    have h2 := hrec tc.tick
+    have h3 : tc.tick.steps = tc.steps + 1 := rfl
+    have : (k + 1) * (1 + c) = k * (1 + c) + (1 + c) := by rw [Nat.add_mul]; simp
+    omega
+
+/-- `k` SubjectSet types on the self-referential relation: at least `k^d` steps with `d`
+    levels of recursion left (no memoisation). -/
+theorem recCheck_fam_steps (k : Nat) (item : Item) (relation : String) :
+    ∀ (d : Nat) (tc : TC), tc.steps + k ^ d ≤ (recCheck (famNss k) item relation d "N" "a" tc).steps
+  | 0, tc => by
+    unfold recCheck
+    show tc.steps + k ^ 0 ≤ tc.steps + 1
+    simp
+  | d+1, tc => by
+    unfold recCheck
+    simp only [fam_find]
+    have h := typesLoop_fam_steps (recCheck (famNss k) item relation d) (k ^ d)
+      (fun t => recCheck_fam_steps k item relation d t) (famNss k) item relation k tc.tick
+    have h3 : tc.tick.steps = tc.steps + 1 := rfl
+    have : k ^ (d + 1) ≤ k * (1 + k ^ d) := by
+      rw [Nat.pow_succ, Nat.mul_add, Nat.mul_comm (k ^ d) k]; omega
+    omega
+
 /-! ### source positions -/
 
 def nlCount (s : List UInt8) : Nat := (s.filter (· == 10)).length
